@@ -473,6 +473,82 @@ example :
     (lockStep [sub] [none] ⟨0, [], [1]⟩).1 = some (.error .missingInput) := by
   decide
 
+/-- The requests of the body graph `k` are constant: every lock event on cache `k` carries
+`(ins, outs)` (what `If` / `Loop` do: `Vec::new()` / the body's input ids, and the body graph's
+`output_ids()`; the harness asserts it on the logged lock events). -/
+def ConstReq (k : Nat) (ins outs : List Nat) (evs : List LockEv) : Prop :=
+  ∀ e ∈ evs, e.gi = k → e.ins = ins ∧ e.outs = outs
+
+theorem cachesAfter_fixed {graphs : List Graph} {k : Nat} {g : Graph} {ins outs : List Nat}
+    (hg : graphs[k]? = some g) :
+    ∀ (evs : List LockEv) (caches : List (Option CachedPlan)), ConstReq k ins outs evs →
+      (∀ c, caches[k]? = some c → FixedCache g (isSubOf k) ins outs c) →
+      ∀ c, (cachesAfter graphs evs caches)[k]? = some c → FixedCache g (isSubOf k) ins outs c := by
+  intro evs
+  induction evs with
+  | nil => intro caches _ h; exact h
+  | cons e es ih =>
+    intro caches hreq h
+    apply ih _ (fun e' he' => hreq e' (List.mem_cons_of_mem _ he'))
+    intro c hc
+    unfold lockStep at hc
+    cases hge : graphs[e.gi]? with
+    | none => rw [hge] at hc; exact h c hc
+    | some g' =>
+      cases hce : caches[e.gi]? with
+      | none => rw [hge, hce] at hc; exact h c hc
+      | some c0 =>
+        rw [hge, hce] at hc
+        simp only at hc
+        by_cases hk : e.gi = k
+        · have hlt : e.gi < caches.length := (List.getElem?_eq_some_iff.mp hce).1
+          obtain ⟨hi, ho⟩ := hreq e (List.mem_cons_self ..) hk
+          subst hk
+          rw [hg] at hge; injection hge with hge; subst hge
+          rw [List.getElem?_set_self hlt] at hc
+          injection hc with hc; subst hc
+          rw [hi, ho]
+          exact (getCachedPlan_fixed_request (h c0 hce)).2
+        · rw [List.getElem?_set_ne hk] at hc
+          exact h c hc
+
+/-- **The plan cache of an `If` branch / `Loop` body is transparent.**  If all critical sections
+on cache `k` carry the same request — as they do for body graphs — then after any sequence of
+critical sections of any threads on any caches of the family, starting from cold caches, the next
+critical section on cache `k` returns *exactly* `create_plan`'s answer for the body graph (the
+same plan, or the same error): a nested run executes the very plan it would execute if its call
+were made alone on a freshly loaded model.  Together with the determinism of `run_plan` as a
+function of (graph, plan, inputs, capture environment) this is why the result of an `If`/`Loop`
+operator does not depend on the other threads; at top level, where the plan may be a different
+valid plan, C02's `c02_plan_independent_iff` applies with `If`/`Loop` as operators. -/
+theorem c22_subgraph_cache_transparent {graphs : List Graph} {k : Nat} {g : Graph}
+    {ins outs : List Nat} (hg : graphs[k]? = some g) (evs : List LockEv)
+    (hreq : ConstReq k ins outs evs) :
+    (lockStep graphs (cachesAfter graphs evs (graphs.map (fun _ => none))) ⟨k, ins, outs⟩).1 =
+      some (createPlan g ins outs (cacheOpts (isSubOf k))) := by
+  have hfix := cachesAfter_fixed hg evs (graphs.map (fun _ => none)) hreq (by
+    intro c hc
+    simp only [List.getElem?_map, hg, Option.map_some, Option.some.injEq] at hc
+    subst hc; trivial)
+  have hlen := (cachesAfter_inv evs (famInv_cold graphs)).len
+  have hk : k < graphs.length := (List.getElem?_eq_some_iff.mp hg).1
+  obtain ⟨c, hc⟩ : ∃ c, (cachesAfter graphs evs (graphs.map (fun _ => none)))[k]? = some c :=
+    ⟨_, List.getElem?_eq_getElem (by rw [hlen]; exact hk)⟩
+  unfold lockStep
+  simp only [hg, hc]
+  rw [(getCachedPlan_fixed_request (hfix c hc)).1]
+
+/-- Non-vacuity: the body graph of the example above, locked four times by two threads between
+top-level critical sections, returns `create_plan`'s plan `[2]` every time. -/
+example :
+    let sub : Graph := { nodes := [.value, .value, .operator { inputs := [some 0], outputs := [some 1] }],
+                         captures := [0] }
+    (lockStep [wGraph, sub]
+      (cachesAfter [wGraph, sub] [⟨0, [0, 1], [2]⟩, ⟨1, [], [1]⟩, ⟨0, [1, 0], [4]⟩, ⟨1, [], [1]⟩, ⟨1, [], [1]⟩]
+        [none, none]) ⟨1, [], [1]⟩).1 = some (.ok [2]) ∧
+    createPlan sub [] [1] (cacheOpts true) = .ok [2] := by
+  decide
+
 /-! ## T3 -/
 
 /-- Steps a thread still has to take. -/
